@@ -15,6 +15,19 @@ def ccPSV0 := fourCC 'P' 'S' 'V' '0'
 /-- dwords of one bit-mask over `vectors` signature rows × 4 components: ceil(vectors / 8) -/
 def maskDwords (vectors : Nat) : Nat := (vectors + 7) / 8
 
+/-- The resource binding records of the part: (resource type, register space, lower bound, upper bound) — the first four
+dwords of every `PSVResourceBindInfo` record, whatever the record size the part declares. -/
+def resources (p : List Nat) : Option (List (Nat × Nat × Nat × Nat)) := do
+  let riSize ← rd32 p 0
+  let pos := 4 + riSize
+  let rc ← rd32 p pos
+  if rc = 0 then pure [] else
+  let rs ← rd32 p (pos + 4)
+  if rs < 16 then none else
+  (List.range rc).mapM (fun i => do
+    let o := pos + 8 + i * rs
+    pure (← rd32 p o, ← rd32 p (o + 4), ← rd32 p (o + 8), ← rd32 p (o + 12)))
+
 /-- Walk the part; `none` = well-formed (ends exactly at the end), `some reason` otherwise. -/
 def walk (p : List Nat) : Option String :=
   let len := p.length
